@@ -1,4 +1,4 @@
 SPECIFICATION Spec
-CONSTANTS MaxDepth = 5
+CONSTANTS MaxDepth = 4
 INVARIANTS InStep Gated
 CHECK_DEADLOCK FALSE
